@@ -20,7 +20,8 @@ ASSUMPTIONS = ["uv areas compared to 1e-9; vertex positions to 1e-9 * scale; bin
 
 
 def _surface(draw, big, normalize=True):
-    return draw(gen.spline(kinds=("surface",), dims=(3,), max_p=3, max_extra=4 if big else 3, unclamped=False, different=False))
+    return draw(gen.spline(kinds=("surface",), dims=(3,), max_p=3, max_extra=4 if big else 3, unclamped="maybe", affine_range="maybe",
+                           normalize="maybe", different=False))
 
 
 @st.composite
@@ -84,9 +85,11 @@ def _check_disc(ctx, verts, faces, edges, byid, what):
 
 def _on_surface(ctx, R, verts, what, limit=60):
     step = max(1, len(verts) // limit)
+    dom = R.domain()
     for v in verts[::step]:
+        # stored uv are fractions of the parametric domain (the mesh always spans the unit square)
         uv = [min(1.0, max(0.0, x)) for x in v.uv]
-        r, sc = R.point([F(uv[0]), F(uv[1])])
+        r, sc = R.point([dom[0][0] + F(uv[0]) * (dom[0][1] - dom[0][0]), dom[1][0] + F(uv[1]) * (dom[1][1] - dom[1][0])])
         ctx.check(ref.vec_close(list(v.data), r, sc, 1e-9), "vertex-off-surface",
                   "%s: vertex %d at uv %r is %r, the surface there is %r" % (what, v.id, list(v.uv), list(v.data), ref.fl(r)))
         ctx.check(all(-1e-12 <= x <= 1.0 + 1e-12 for x in v.uv), "vertex-uv-out-of-range", "%s: vertex %d has uv %r outside the unit square" % (what, v.id, list(v.uv)))
@@ -119,6 +122,7 @@ def check_triangles(case, ctx):
     ctx.nt(k >= 2, "spacing>=2")
     ctx.label("spacing:%d" % k)
     ctx.label("via:" + case["via"])
+    ctx.label("domain-not-unit-square", bool(d.get("unclamped")) or (bool(d.get("affine")) and not d["normalize"]))
     ctx.check(len(verts) == mu * mv, "vertex-count", "%s: %d vertices, expected %d x %d" % (what, len(verts), mu, mv))
     ctx.check(len(faces) == 2 * (mu - 1) * (mv - 1), "face-count", "%s: %d triangles, expected %d" % (what, len(faces), 2 * (mu - 1) * (mv - 1)))
     byid, edges = _mesh_validity(ctx, verts, faces, 3, what)
